@@ -465,7 +465,7 @@ func (ip *Interp) Store(st *State, p *Ptr, t types.Type, v Val) {
 		}
 	}
 	if ip.TraceStores {
-		ip.Stores = append(ip.Stores, StoreEvent{Key: k, Obj: p.Obj, Path: p.Path, V: v, Fn: ip.curFn(), Pos: ip.curPos, GuardL: ip.GuardList(st)})
+		ip.Stores = append(ip.Stores, StoreEvent{Key: k, Obj: p.Obj, Path: p.Path, V: v, Fn: ip.curFn(), Pos: ip.curPos, GuardL: ip.PathGuardList(st)})
 	}
 }
 
